@@ -346,3 +346,8 @@ pub enum PeerCondition {
     /// configured connection limits.
     Always,
 }
+
+#[cfg(kani)]
+pub(crate) mod verif {
+    include!(concat!(env!("LIBP2P_VERIF"), "/hooks/swarm_dial_opts.rs"));
+}
